@@ -34,7 +34,9 @@ func (c *Ctx) v2RecvCommitRule(which, rule string) {
 		switch {
 		case failed(r):
 			nFail++
-			if commits != 1 {
+			// a commit performed on only some of the paths merged into this class counts too
+			if extra := c.CountAtoms(which, r.May, nil, pktMacros, "call:dyn(extract:1($CC($ECTX)))"); commits != 1 || extra != 0 {
+				commits += extra
 				c.bad(rule+"/failure-discards-all-app-state", entryRecv2, "", fmt.Sprintf("a path class on which a payload reported failure commits the shared cache %d times (expected only the TAO commit)", commits))
 			} else {
 				c.ok(rule+"/failure-discards-all-app-state", entryRecv2, "", "failure: only the TAO commit")
